@@ -26,6 +26,7 @@ def run(ctx):
         concrete = lastext.concretise(inst["text"], rng)
         ev = lastext.read_event("C02", inst, concrete, engines=("numpy", "normal"))
         events.append(ev)
+        lastext.engine_drift(ctx, inst, ev, "numpy")
         meta.append({"tag": inst["tag"], "concrete": concrete})
         ctx.evaluations += 2
         ctx.case([inst["tag"]])
